@@ -62,11 +62,11 @@ theorem canon :
     (∀ sep ps, Canon (Text.join sep ps)) ∧
     (∀ (t : Text) i j, Canon (t.getSlice i j)) ∧
     (∀ (t r : Text) i, t.getIndex i = .ok r → Canon r) ∧
-    (∀ (t : Text) n, Canon t → Canon (t.fixedLen n)) ∧
+    (∀ (t : Text) n, Canon (t.fixedLen n)) ∧
     (∀ (c : Chunk) n, Canon (c.fixedLen n)) :=
   ⟨canon_empty, appendChunk_canon, iadd_canon, construct_canon, add_canon,
     fun _ _ => construct_canon _, join_canon, getSlice_canon, getIndex_canon,
-    fun t n h => fixedLen_canon t h n, fun c n => by
+    fixedLen_canon, fun c n => by
       unfold Chunk.fixedLen
       simp only []
       split
@@ -102,6 +102,17 @@ theorem construct_cells (ps : List Part) : (construct ps).cells = (ps.map Part.c
 theorem add_cells (t : Text) (o self other : Part) :
     (t.add o).cells = t.cells ++ o.cells ∧ (radd self other).cells = other.cells ++ self.cells :=
   ⟨CHText.add_cells t o, radd_cells self other⟩
+
+/-- `t += t` and `t += [t]` (the operand is the target itself; the real method iterates over a
+snapshot of the operand's chunks since fix 6257f6b, which is what a value means): the text twice.
+`fixed_len` needs no such statement: it returns a value, and the real method a new object -/
+theorem self_iadd (t : Text) (tp : Bool) :
+    (iadd t (.text t)).cells = t.cells ++ t.cells ∧
+    (iadd t (.list tp [.text t])).cells = t.cells ++ t.cells ∧
+    (Canon t → Canon (iadd t (.text t)) ∧ Canon (iadd t (.list tp [.text t]))) := by
+  refine ⟨by rw [CHText.iadd_cells]; rfl, ?_, fun h => ⟨iadd_canon _ _ h, iadd_canon _ _ h⟩⟩
+  rw [CHText.iadd_cells]
+  simp [Part.cells, Part.cellsList]
 
 /-- `sep.join(items)` is `str.join` on the cells -/
 theorem join_cells (sep : Text) (ps : List Part) :
